@@ -257,3 +257,10 @@ def replay(w):
         return bool(why), txt + (' -- ' + why if why else ' -- acceptable')
     finally:
         AR.drop_root(base)
+
+
+def level_a(tier):
+    """file_archive (serialized): after EVERY file-system effect of the real __save__ and of every mutating mapping method built on it the
+    archive reads as the old or the new contents -- proved by pyvc over the assumed file-system contract (contracts/fs_contracts.py)"""
+    from checks import wrapperprops
+    return wrapperprops.fs_level_a(('C13',))
